@@ -3,6 +3,7 @@ CONSTANTS
   N = 4
   MaxView = 2
   Height = 1
+  InitSilentSets <- SilentAny
   MaxSilentChanges = 3
   Depth = 30
 INVARIANT Emit
